@@ -19,7 +19,11 @@ SRC = os.path.join(REPO, "src")
 OUT = os.path.join(ROOT, "coq", "Gen", "TreeOrder.v")
 
 KNOWN_UPDATERS = {("rebound.c", "reb_simulation_step"), ("tools.c", "reb_simulation_move_to_com"), ("collision.c", "reb_collision_search")}
-KNOWN_SEARCH_CALLERS = {("rebound.c", "reb_simulation_step")}
+KNOWN_SEARCH_CALLERS = {("rebound.c", "reb_simulation_step"),
+                        # hybrid integrators search for collisions INSIDE their encounter steps (on the encounter particle array,
+                        # after moving particles, without a boundary check): emitted as separate sequences, see C15/TreeOrder.v
+                        ("integrator_mercurius.c", "reb_mercurius_encounter_step"),
+                        ("integrator_trace.c", "reb_integrator_trace_bs_step"), ("integrator_trace.c", "reb_integrator_trace_step")}
 EVENTS = [("B", r"\breb_boundary_check\s*\("), ("U", r"\breb_simulation_update_tree\s*\("), ("C", r"\breb_collision_search\s*\("),
           ("M", r"\breb_integrator_part1\s*\("), ("M", r"\breb_integrator_part2\s*\("),
           ("M", r"->\s*pre_timestep_modifications\s*\("), ("M", r"->\s*post_timestep_modifications\s*\("), ("M", r"->\s*additional_forces\s*\(")]
@@ -68,9 +72,10 @@ for fn in sorted(os.listdir(SRC)):
     text = re.sub(r'"(?:\\.|[^"\\\n])*"', '""', text)      # string literals may contain braces
     for name, a, b in functions(text):
         body = text[a:b]
-        if re.search(r"\breb_collision_search\s*\(", body) and name != "reb_collision_search":
+        is_searcher = bool(re.search(r"\breb_collision_search\s*\(", body)) and name != "reb_collision_search"
+        if is_searcher:
             search_callers.add((fn, name))
-        if not re.search(r"\breb_simulation_update_tree\s*\(", body):
+        if not re.search(r"\breb_simulation_update_tree\s*\(", body) and not is_searcher:
             continue
         if re.search(r"\bgoto\b", body):
             die("%s:%s uses goto: call order not derivable" % (fn, name))
@@ -81,6 +86,8 @@ for fn in sorted(os.listdir(SRC)):
         evs.sort()
         updaters[(fn, name)] = [t for _, t in evs]
 
+hybrid = {k: v for k, v in updaters.items() if k in KNOWN_SEARCH_CALLERS and k not in KNOWN_UPDATERS}
+updaters = {k: v for k, v in updaters.items() if k not in hybrid}
 if set(updaters) != KNOWN_UPDATERS:
     die("functions calling reb_simulation_update_tree changed: %s (known %s)" % (sorted(updaters), sorted(KNOWN_UPDATERS)))
 if search_callers != KNOWN_SEARCH_CALLERS:
@@ -94,6 +101,11 @@ L = ["(* GENERATED by tools/translate_treeorder.py from $VERIF_REPO/src -- do no
      "Inductive tev := EvB | EvU | EvM | EvC.\n"]
 for (fn, name), evs in sorted(updaters.items()):
     L.append("Definition order_%s : list tev := [%s]." % (name, "; ".join("Ev" + t for t in evs)))
+for (fn, name), evs in sorted(hybrid.items()):
+    if "B" in evs or "U" in evs:
+        die("%s:%s now calls the boundary check / tree update itself: extend the model" % (fn, name))
+    L.append("Definition order_%s : list tev := [%s]." % (name, "; ".join("Ev" + t for t in evs)))
+L.append("Definition hybrid_search_sites : list (string * list tev) := [%s]." % "; ".join('("%s:%s", order_%s)' % (k[0], k[1], k[1]) for k in sorted(hybrid)))
 L.append("Definition update_callers : list string := [%s]." % "; ".join('"%s:%s"' % k for k in sorted(updaters)))
 os.makedirs(os.path.dirname(OUT), exist_ok=True)
 new = "\n".join(L) + "\n"
